@@ -9,9 +9,11 @@ delivery operations chosen by the adversary (`NetOp`): it may deliver any messag
 any order, any number of times, or never (loss / duplication / reordering), and hand over
 messages of its own making.
 
-* `stepResp`: `handle` = `try_handle_sigma1_resume` → else `handle_casesigma1` → `recv` →
-  `handle_casesigma3`; every failure ends the exchange (reserved session dropped) with an error
-  status report.
+* `stepResp`: `handle` = `try_handle_sigma1_resume` (`respResumeStep`: sent / fall through / aborted
+  after `Sigma2_Resume` went out) → else `handle_casesigma1` → `recv` → `handle_casesigma3`; every
+  failure ends the exchange (reserved session dropped) with an error status report.  The fabric
+  table is constant during the exchange (`cfg.fabricsR`): the code re-reads the fabric by index at
+  Sigma2 / Sigma3, which then yields the fabric found at Sigma1 (`respSigma3At`).
 * `stepInit`: `perform` after Sigma1 was sent: `Sigma2_Resume` → `finalize_sigma2_resume`,
   `Sigma2` → validation + Sigma3, anything else ends the attempt; then the final status report.
 * a datagram identical to one already delivered to that end is dropped by the transport (message
@@ -66,9 +68,11 @@ deriving Repr, Inhabited
 def stepResp (cfg : HsCfg) (r : RState) (m : Msg) : RState × List Msg :=
   match r with
   | .idle =>
-    match respResume cfg.fabricsR cfg.cacheR m cfg.ridR cfg.sidR with
-    | some cx => (.sent2r cx, [cx.s2r])
-    | none =>
+    match respResumeStep cfg.fabricsR cfg.cacheR m cfg.ridR cfg.sidR with
+    | .sent cx => (.sent2r cx, [cx.s2r])
+    -- `Sigma2_Resume` is out, then the handler fails: exchange dropped, nothing more is sent
+    | .aborted s2r => (.done none, [s2r])
+    | .fallThrough =>
       match respSigma1 cfg.fabricsR m cfg.ephR cfg.rndR cfg.ridR cfg.sidR with
       | .sent ctx => (.sent2 ctx, [ctx.s2])
       | .refused => (.done none, [.status false])
